@@ -262,3 +262,37 @@ def _join_model(P: Program, rep: Report, vj: FuncInfo) -> None:  # noqa: C901
                                        f"{op} over operands with identifiers {ids_list}" + (f" using {using}" if using else "") + f": operand {d.name} is joined ON {sorted(got_keys)}; "
                                        f"the relational join needs exactly {want_keys} (" + ("the using keys it has" if using else "the identifiers it shares with the operands joined before it") + ")"))
     rep.floor("R04.7 accepted join instances", n_ok, 25)
+    # aliases: `DS_1 as x1` followed by un-aliased operands - each operand is qualified by ITS OWN alias or name
+    for op in ("inner_join", "left_join"):
+        for label, aliases in (("first-aliased", ["x1", None, None]), ("middle-aliased", [None, "x2", None]), ("all-aliased", ["x1", "x2", "x3"])):
+            names = ["DS_1", "DS_2", "DS_3"]
+
+            def mk3():
+                return [M.ds(n_, ["A"], [f"M{i_ + 1}", "X"]) for i_, n_ in enumerate(names)]
+            vops = mk3()
+            for d_, a_ in zip(vops, aliases):
+                d_.name = a_ or d_.name  # the interpreter hands the validator each operand under its alias
+            key = f"join-alias/{op}/{label}"
+            try:
+                v = validate("InnerJoin" if op == "inner_join" else "LeftJoin", vops, None)
+                r = sm.join_sql(M, op, [(n_, d_, a_) for n_, d_, a_ in zip(names, mk3(), aliases)], None)
+                vb = sm.join_visitor(M, op, [(n_, d_, a_) for n_, d_, a_ in zip(names, mk3(), aliases)], None)
+            except Unmodelled as e:
+                raise AnalysisError(f"R04.7 {key}: construct outside the evaluator's language: {e}")
+            if v[0] != "ok" or r[0] != "ok" or isinstance(r[1], str):
+                raise AnalysisError(f"R04.7 {key}: join with aliases not evaluable in the model ({v[0]}, {r[0]})")
+            want = sorted(v[1].components)  # type: ignore[union-attr]
+            cols = []
+            for c in r[1].cols:
+                m_ = _re.search(r'AS "([^"]+)"\s*$', c)
+                cols.append(m_.group(1) if m_ else c.split(".")[-1].strip('"'))
+            gotb = sorted(vb[1].components) if vb[0] == "ok" and vb[1] is not None else None
+            rep.instance("R04.7", key, sample={"components": want, "select": sorted(cols), "structure": gotb})
+            if sorted(cols) != want:
+                rep.add(transp.fnd("R04.7", key + "/select", vj, vj.node.lineno,
+                                   f"{op}(DS_1, DS_2, DS_3) with aliases {aliases}: semantic analysis names the components {want}, the generated SELECT delivers {sorted(cols)}"))
+            if gotb != want:
+                fbj = P.func(f"{sm.SV}._build_join_structure")
+                rep.add(transp.fnd("R04.7", key + "/structure", fbj, fbj.node.lineno,
+                                   f"{op}(DS_1, DS_2, DS_3) with aliases {aliases}: semantic analysis names the components {want}, the transpiler's structure of the join (used by the clause body "
+                                   f"that follows) has {gotb}: a component qualified by the wrong alias is not found by rename / keep / drop and silently disappears"))
